@@ -90,6 +90,28 @@ func fixtureOrig(kind string, alt bool) any {
 	return nil
 }
 
+// the same struct, still carrying the media type of another kind (e.g. after a conversion)
+func withForeignMediaType(kind string, o any) any {
+	switch v := o.(type) {
+	case v1.Manifest:
+		v.MediaType = mediatype.Docker2Manifest
+		return v
+	case v1.Index:
+		v.MediaType = mediatype.Docker2ManifestList
+		return v
+	case v1.ArtifactManifest:
+		v.MediaType = mediatype.OCI1Manifest
+		return v
+	case schema2.Manifest:
+		v.MediaType = mediatype.OCI1Manifest
+		return v
+	case schema2.ManifestList:
+		v.MediaType = mediatype.OCI1ManifestList
+		return v
+	}
+	return o
+}
+
 func mlistFixture(name string) []descriptor.Descriptor {
 	a := blobDesc(mediatype.OCI1Manifest, `{"m":"amd64"}`)
 	a.Platform = &platform.Platform{OS: "linux", Architecture: "amd64"}
@@ -326,6 +348,7 @@ func observe(ev map[string]any, kind string, m manifest.Manifest) {
 	mj, _ := m.MarshalJSON()
 	c := canonical(kind, raw)
 	ev["rep_digest"], ev["rep_size"], ev["rep_mt"] = string(d.Digest), int(d.Size), d.MediaType
+	ev["body_mt"] = bodyMT(raw)
 	ev["raw_sha256"], ev["mj_sha256"] = h256(canonical(kind, raw)), h256(canonical(kind, mj))
 	ev["canon_sha256"], ev["canon_sha512"], ev["canon_len"], ev["raw_len"] = h256(c), h512(c), len(c), len(raw)
 	g := getters(kind, m)
@@ -433,7 +456,11 @@ func runEdit(enc *json.Encoder, sc editScn, id string) {
 				na = true
 			}
 		case "orig":
-			err = m.SetOrig(fixtureOrig(sc.Kind, true))
+			o := fixtureOrig(sc.Kind, true)
+			if op[1] == "o1badmt" {
+				o = withForeignMediaType(sc.Kind, o)
+			}
+			err = m.SetOrig(o)
 		}
 		switch {
 		case na:
@@ -576,7 +603,7 @@ func runFetch(enc *json.Encoder, sc fetchScn, scratch string, n int) {
 	ev := map[string]any{"ev": "fetch", "kind": sc.Kind, "variant": sc.Variant, "desc": sc.Desc, "ref": sc.Ref, "hdr": sc.Hdr,
 		"hdrmt": sc.HdrMT, "via": sc.Via, "served_sha256": h256(body), "served_sha512": h512(body),
 		"servedp_sha256": h256(canon),
-		"canon_sha256": h256(canon), "canon_sha512": h512(canon), "canon_len": len(canon), "raw_len": len(body), "body_mt": bodyMT(body),
+		"canon_sha256":   h256(canon), "canon_sha512": h512(canon), "canon_len": len(canon), "raw_len": len(body), "body_mt": bodyMT(body),
 		"put_done": 0, "put_sha256": "", "put_digest": "", "rep_digest": "", "rep_size": 0, "rep_mt": "", "raw_sha256": "", "mj_sha256": ""}
 	hdrMT := ""
 	switch sc.HdrMT {
